@@ -100,96 +100,97 @@ var (
 	rSizes     = Rule{"R14-size", ruleDeclaredSizes}
 	rAnchored  = Rule{"R24-anchored", ruleAnchoredRegex}
 	rQuote     = Rule{"R23-quote", ruleQuoteAlphabet}
+	rCensus    = Rule{"R14c-census", ruleRefusalCensus}
 )
 
 func init() {
 	register(&Property{ID: "C01", Title: "HSMS encode->decode round trip",
-		Rules: []Rule{rEncTab, rHeader, rDispatch, rWidth, rShift, rDecHdr, rMsgLayout, rEndian, only(rIface, "hsms.parser", "consumer:")},
+		Rules:       []Rule{rEncTab, rHeader, rDispatch, rWidth, rShift, rDecHdr, rMsgLayout, rEndian, only(rIface, "hsms.parser", "consumer:")},
 		Explanation: "Decides, from the source, the structural conditions every round trip depends on: each node's ToBytes requests the item header of its own E5 format (R1-encode) and the header routine emits the E5 format byte and minimal big-endian length on every cell of the size axis (R26); the decoder maps each of the 256 format-byte values to exactly the factory and width of that E5 code (R1c); every numeric branch reads its own width big-endian, reinterprets it at that width and hands the value to the factory untouched, in a type that factory accepts (R22, R2); multi-byte item lengths are accumulated without losing bits (R4); header fields are read from the offsets they are written to (R21 both directions); multi-byte values are written most significant byte first (R16).",
 		NotDecided:  "equality of values and item trees for all inputs (round-trip equality over run-time data) and the decoder's position arithmetic are not decided; only the listed necessary conditions are.",
 		Assumptions: stdAssumptions})
 	register(&Property{ID: "C02", Title: "Encoded bytes conform to SEMI E5 / E37",
-		Rules: []Rule{rEncTab, rHeader, rToBytes, rMsgLayout, rEndian, rLimit},
+		Rules:       []Rule{rEncTab, rHeader, rToBytes, rMsgLayout, rEndian, rLimit},
 		Explanation: "Compares the encoder with an independent transcription of the standards: format code and element width per node type and byteSize (R1-encode), the item header routine against the E5 reference header for all 14 type names on every cell of the size axis cut at 255|256, 65535|65536, 16777215|16777216 bytes and at every constant the code compares with (R26: format byte, number of length bytes, big-endian length, error beyond the limit), the message layout byte by byte as symbolic terms (R21: 4-byte big-endian length of text+10, session id, W|stream, function, 0, 0, system bytes, item), big-endian payload emission (R16), and that an incomplete item or message encodes to the empty slice on each of its incompleteness conditions separately (R15).",
 		NotDecided:  "payload bytes for all values (two's complement of every integer, IEEE conversion delegated to math.Float*bits, 7-bit ASCII) are decided only as 'the bytes appended are byte(x >> 8k) of the stored value in descending k'; children order in lists and boolean 0/1 emission are not decided.",
 		Assumptions: stdAssumptions})
 	register(&Property{ID: "C03", Title: "HSMS decoder accepts exactly well-formed messages",
-		Rules: []Rule{rFraming, rSTypes, rDispatch, rDivisible, rShift, rContH, rWidth, only(rIface, "hsms.parser", "consumer:"), only(rCkRep, "ast.New"), only(rAllocH, "R6-alloc")},
+		Rules:       []Rule{rFraming, rSTypes, rDispatch, rDivisible, rShift, rContH, rWidth, only(rIface, "hsms.parser", "consumer:"), only(rCkRep, "ast.New"), only(rAllocH, "R6-alloc")},
 		Explanation: "Every rejection the statement lists that has a structural form is decided as a guard denotation or a dominance fact: at least 14 bytes and success exactly when declared length equals bytes present (R5), PType 0 and exactly the E37 STypes over all 256x5 header byte pairs, with the right constructor per SType (R1d), exactly the 42 E5 format bytes with 1-3 length bytes accepted over all 256 values (R1c), payload length divisible by the element width in all three numeric handlers (R17), all bytes consumed before a data message is built (R5), lengths read without losing bits (R4), declared lengths checked against the remaining input (R6), constructor refusals converted to ok=false (R7), values built through validating factories with agreeing types and widths (R13, R2, R22).",
 		NotDecided:  "that position arithmetic and slice bounds implement the grammar for every byte string, and re-encoding equality, are not decided (an independent reference decoder comparison is dynamic).",
 		Assumptions: stdAssumptions})
 	register(&Property{ID: "C04", Title: "SML print->parse round trip",
-		Rules: []Rule{rSMLTab, rQuote, only(rSizes, "String:bounds", "bounds->variable", "bounds-flow", "NewASCIINodeVariable", "parseDataItemSize"), only(rLexClass, "upper-emit", "upper-consts")},
+		Rules:       []Rule{rSMLTab, rQuote, only(rSizes, "String:bounds", "bounds->variable", "bounds-flow", "NewASCIINodeVariable", "parseDataItemSize"), only(rLexClass, "upper-emit", "upper-consts")},
 		Explanation: "Decides that printer and reader use the same alphabets: each of the 14 type keywords is classified by the lexer and dispatched by the parser to the factory and element width of the same format, numbers are read with the item's own bit size (R1e-sml); every ASCII character the printer puts inside a quoted run can be read back there and the value never reaches the output unfiltered, while the reader takes quoted text literally (R23); ASCII-variable bounds are printed from, and parsed into, (min, max) in the same order (R14-size data flow).",
 		NotDecided:  "that parse(print(m)) equals m on values (number formatting, shortest float printing, ellipsis numbering, message-name lexing) is a run-time-value question and is not decided.",
 		Assumptions: stdAssumptions})
 	register(&Property{ID: "C05", Title: "SML literals denote exactly the stored values",
-		Rules: []Rule{only(rErr, "sml.parser"), only(rIface, "sml.parser", "consumer:"), rSMLTab, rDomSML, rErrSupp, only(rCkRep, "ast.New")},
+		Rules:       []Rule{only(rErr, "sml.parser"), only(rIface, "sml.parser", "consumer:"), rSMLTab, rDomSML, rErrSupp, only(rCkRep, "ast.New")},
 		Explanation: "No conversion error of a literal is discarded except four documented, range-guarded Atoi calls (R9); each item parser hands its factory only types it accepts (R2); bitSize is 8 x the item's width, base 0, and keyword->width dispatch is right (R1e-sml); the parser diagnoses exactly the literals outside [0,255] for binary, above 127 for ASCII codes and quoted runes, outside [0,127]/[0,255] for stream/function, and a number followed by a letter, digit or underscore (R14-sml, as guard denotations in sink mode); any diagnosed input returns no message (R25); the factories' own range checks cannot be bypassed (R13).",
 		NotDecided:  "that strconv's reading of a literal is the SML reading (trusted) and the lexer's number scanning beyond the terminator check are not decided.",
 		Assumptions: stdAssumptions})
 	register(&Property{ID: "C06", Title: "SML parser is total and all-or-nothing",
-		Rules: []Rule{rContS, rAllocS, rPreS, rRecS, rEmit, rErrSupp, only(rImmut, "I5:go")},
+		Rules:       []Rule{rContS, rAllocS, rPreS, rRecS, rEmit, rErrSupp, only(rImmut, "I5:go")},
 		Explanation: "Every refusal (explicit panic or failing type assertion) reachable from sml.Parse lies under a deferred recover on every call path (R7); no size taken from the input text sizes an allocation unchecked (R6, R6c); each lexer state sends at most as many tokens per invocation as the channel holds, runs only when the buffer is empty, and closes the channel after error/EOF (R19); messages are returned only when no error was reported and diagnostics have the documented form (R25); no goroutine is started (I5); recursion depth (R8) is an open, recorded finding.",
 		NotDecided:  "lexer termination (progress per state invocation), run-time index/slice panics in the lexer, time complexity and that reported positions lie inside the input are not decided.",
 		Assumptions: stdAssumptions})
 	register(&Property{ID: "C07", Title: "HSMS decoder is total, memory linear in the input",
-		Rules: []Rule{rContH, rAllocH, rPreH, rRecH, only(rImmut, "I5:go", "hsms.Parse", "(*hsms.parser)")},
+		Rules:       []Rule{rContH, rAllocH, rPreH, rRecH, only(rImmut, "I5:go", "hsms.Parse", "(*hsms.parser)")},
 		Explanation: "hsms.Parse defers, in its entry block, a closure that itself calls recover and sets ok=false, and every may-panic site below it is under that recover (R7); every buffer sized from a declared length is preceded, on every path, by a comparison of that length with the bytes present (R6, interprocedural through the numeric handlers); no input-sized buffer is allocated before a recursive call (R6c) and no string is built by concatenation in a loop (R6b) — the two ways allocation becomes quadratic; the input slice is never written (R12-I3); recursion depth (R8) is an open, recorded finding.",
 		NotDecided:  "the constant of the linear bound and allocation inside the ast factories beyond 'sized by len(values)' are not decided.",
 		Assumptions: stdAssumptions})
 	register(&Property{ID: "C08", Title: "Comments, whitespace and letter case never change what is parsed",
-		Rules: []Rule{rLexClass, only(rSMLTab, "keyword-class")},
+		Rules:       []Rule{rLexClass, only(rSMLTab, "keyword-class")},
 		Explanation: "Decides the character classes as sets, by evaluating the lexer states over every rune below U+3100 that is ASCII or Unicode white space: both states skip exactly {space, tab, CR, LF}, the size scanner accepts exactly that set and the size token drops all of it, the comment state gives back only characters both states skip and returns to the interrupted state (R10b); no classifier is applied to a single byte (R10a); every keyword-like token is emitted upper-cased and the parser compares only with upper-case constants (R10c); exactly the 14 keywords and T/F are classified case-insensitively (R1e-sml); comment tokens never reach the grammar (R10d).",
 		NotDecided:  "equality of parses for all layout pairs and that diagnostics move by exactly the inserted lines and columns (arithmetic of lineColumn) are not decided; number-prefix case is decided only through base 0.",
 		Assumptions: stdAssumptions})
 	register(&Property{ID: "C09", Title: "Filling variables is pure substitution",
-		Rules: []Rule{rImmut, rFillPass, only(rIface, "FillVariables", "fillEllipsis", "consumer:"), rCkRep, rLossy, only(rFrame, "FillVariables")},
+		Rules:       []Rule{rImmut, rFillPass, only(rIface, "FillVariables", "fillEllipsis", "consumer:"), rCkRep, rLossy, only(rFrame, "FillVariables")},
 		Explanation: "Necessary conditions only: the receiver and shared children are never written (R12); in every FillVariables the value looked up in the caller's map is stored into the factory's argument list as is, the list is never read back before the factory sees it, and the factory receives it (R2b) in a type set the factory accepts (R2); the result is validated by the same checkRep a constructor runs (R13) with the same lossless-conversion guarantee (R3, R3b) — the 'refused exactly as the constructor refuses it' clause; the message-level fill keeps every header field (R11).",
 		NotDecided:  "equality with direct construction, order preservation and composition of successive fills are relations between values of different runs; nothing structural stands for them.",
 		Assumptions: stdAssumptions})
 	register(&Property{ID: "C11", Title: "Items and messages are immutable; no aliasing with caller data",
-		Rules: []Rule{rImmut, only(rCopy, "R18"), only(rCtlLayout, "NewHSMSControlMessage:copy")},
+		Rules:       []Rule{rImmut, only(rCopy, "R18"), only(rCtlLayout, "NewHSMSControlMessage:copy")},
 		Explanation: "A type-directed effect analysis over all three packages decides the whole statement under its stated assumptions: (I1) a field of an item or message is stored only into an object the storing function has just allocated; (I2) a slice or map loaded from such an object is never written through, appended to, copied into, handed to an external function outside the read-only allow-list, returned by an exported function, or stored anywhere but into a new immutable object; (I3) slice/map parameters of exported functions are treated the same and never stored into an object; (I5) no package-level variable is written after initialisation, none is a slice or map, there are no goroutines and no sync/unsafe/reflect. Labels propagate through slicing, phis, interfaces, calls in both directions, closures and fields of the per-call helper structs.",
 		NotDecided:  "user-defined ItemNode implementations are outside the claim.",
 		Assumptions: append([]string{"external functions on the read-only allow-list (fmt, strings, strconv, unicode, utf8, math, regexp, binary.BigEndian.Uint*) do not modify or retain their slice arguments"}, stdAssumptions...)})
 	register(&Property{ID: "C12", Title: "Constructors store exactly what was passed or refuse it",
-		Rules: []Rule{rDomMsg, rDomNodes, rLossy, only(rErr, "ast."), rCkRep, rIface, rAnchored, rLimit, only(rSizes, "checkRep:bounds", "FillVariables")},
+		Rules:       []Rule{rDomMsg, rDomNodes, rLossy, only(rErr, "ast."), rCkRep, rIface, rAnchored, rLimit, only(rSizes, "checkRep:bounds", "FillVariables"), rCensus},
 		Explanation: "Each documented value domain is compared with the code's guards as sets, by three-valued evaluation over one representative per cell of the arrangement cut by all constants of the code, of its observed comparisons and of the specification: stream, function, wait bit x function parity, direction, session id, system-bytes length, message-name runes, element ranges of I1-I8/U1-U8/F4/F8/binary/ASCII per byteSize, admissible byteSizes, the size limit, ASCII-variable bounds (R14); every integer conversion in a factory is value-preserving or dominated by a refusal of the values it would change, and arguments reach the stored slice through conversions only, placeholders being zero (R3, R3b); accepted dynamic types are exactly the documented ones (R2); no parse error is dropped (R9); every allocation is validated before it is returned (R13); name patterns are anchored (R24).",
 		NotDecided:  "that stored values are printed and encoded unchanged (C02/C04), float rounding, the languages of the name patterns beyond anchoring, and the list rules (ellipsis position, duplicates) beyond the presence of validation on every construction path are not decided.",
 		Assumptions: stdAssumptions})
 	register(&Property{ID: "C13", Title: "16,777,215-byte item limit and length header",
-		Rules: []Rule{rLimit, rHeader, rEncTab, rShift, only(rAllocH, "parseMessageText")},
+		Rules:       []Rule{rLimit, rHeader, rEncTab, rShift, only(rAllocH, "parseMessageText")},
 		Explanation: "The limit constant is 16,777,215 and each of the 7 factories refuses exactly count*width > limit for all 14 formats (R14-limit, cells at limit/width); the header routine returns an error beyond the limit and otherwise the E5 format byte, the minimal number of length bytes and the big-endian length for every type name on every cell of the size axis, including 255|256 and 65535|65536 (R26); each node requests the header of its own type for its element count (R1-encode); the decoder accumulates 1-3 length bytes without losing bits (R4).",
 		NotDecided:  "the header is decided on one representative per cell of the size axis, which is exact as long as the routine only compares the size (or bytes of it) with constants; a sweep of all 16.7M sizes is dynamic and not done.",
 		Assumptions: stdAssumptions})
 	register(&Property{ID: "C14", Title: "HSMS control messages",
-		Rules: []Rule{rCtlLayout, rSTypes, only(rDecHdr, "control"), only(rImmut, "ControlMessage", "NewHSMSControlMessage", "NewHSMSMessage")},
+		Rules:       []Rule{rCtlLayout, rSTypes, only(rDecHdr, "control"), only(rImmut, "ControlMessage", "NewHSMSControlMessage", "NewHSMSMessage")},
 		Explanation: "Each of the 8 typed constructors is evaluated symbolically and its 10 header bytes are compared, as terms over the parameters, with the E37 layout: session id high/low (0xFF 0xFF for linktest), byte 2 (0, or the rejected SType / PType when the reason is 2, decided per reason code), byte 3 status/reason, byte 4 never written, byte 5 the constructor's SType, bytes 6-9 from the caller's or the request's system bytes; responses copy bytes 0-1 and 6-9 of the request and refuse exactly the requests whose Type() is not the paired one (R21); the encoder emits 00 00 00 0A then the whole header; Type() returns the E37 name for all 256 STypes x 6 PTypes and never panics, the decoder accepts exactly those STypes and passes the 10 header bytes on (R1d, R21-decode).",
 		NotDecided:  "behaviour of the generic constructor for a header that is not 10 bytes long is outside the statement.",
 		Assumptions: stdAssumptions})
 	register(&Property{ID: "C15", Title: "Declared item sizes are enforced",
-		Rules: []Rule{rSizes},
+		Rules:       []Rule{rSizes},
 		Explanation: "The three guards involved only compare integers, so their denotation is decided exactly on the weak orderings of (size, lower, upper, -1): the parser's size check reports an error exactly when not (lower <= size and (upper == -1 or size <= upper)) (512 tuples), ASCIINode.FillVariables reaches NewASCIINode exactly when min <= len and (max == -1 or len <= max), and ASCIINode.checkRep accepts exactly min >= 0, max >= -1, min <= max unless max == -1; the bounds travel unpermuted from the size token through parseDataItemSize, parseDataItem, parseASCII and NewASCIINodeVariable into the fields, FillInStringLength and the printer's three size forms; the size check is reached for all 14 item types with item.Size() and the size token; [n] yields (n, n) and [a..b] yields (a, b).",
 		NotDecided:  "the size scanner in the lexer and what Size() counts for each node are not decided.",
 		Assumptions: stdAssumptions})
 	register(&Property{ID: "C16", Title: "Variable listing, encodability, size",
-		Rules: []Rule{rToBytes, only(rCkRep, "ListNode", "DataMessage"), only(rImmut, "Variables", "getVariableNames", "variablesSwapKeyValue")},
+		Rules:       []Rule{rToBytes, only(rCkRep, "ListNode", "DataMessage"), only(rImmut, "Variables", "getVariableNames", "variablesSwapKeyValue"), only(rCensus, "ListNode", "duplicated"), only(rHeader, "R26"), only(rLimit, "R14-limit")},
 		Explanation: "An item or message encodes to bytes only when it reports no variables, decided per type by evaluating ToBytes with the variable count bound: a non-zero count forces the empty slice on every reachable return, zero allows bytes; a list returns the empty slice as soon as a child does; a message additionally requires a decided wait bit and a session id, each condition separately (R15); every list construction runs the tree-wide duplicate check because every ListNode allocation is validated (R13); the observers return fresh slices (R12).",
 		NotDecided:  "that the listed order equals the printed order and that Size() equals the number of printed elements are relations between two run-time outputs and are not decided.",
 		Assumptions: stdAssumptions})
 	register(&Property{ID: "C17", Title: "Safe for concurrent use",
-		Rules: []Rule{rImmut},
+		Rules:       []Rule{rImmut},
 		Explanation: "Decided by immutability: no package-level variable is written after initialisation and none is a slice or map, no goroutine is started, sync/unsafe/reflect are not imported, the mutable helper structs (sml.parser, sml.lexer, hsms.parser, ast.fillState) are unexported, not reachable from any item or message and not returned by any exported function, and no function writes memory reachable from its receiver or arguments (I1-I3). Concurrent calls therefore share only memory nobody writes, which is race-free for every schedule and makes each call's result independent of the others.",
 		NotDecided:  "nothing schedule-dependent is left under the assumptions.",
 		Assumptions: append([]string{"the allow-listed standard-library functions are safe for concurrent use on shared read-only arguments (documented for regexp, strconv, strings, fmt)"}, stdAssumptions...)})
 	register(&Property{ID: "C18", Title: "Message producers change exactly the fields they name",
-		Rules: []Rule{rFrame, only(rCkRep, "DataMessage"), rCopy, only(rDomMsg, "SetSessionIDAndSystemBytes"), only(rImmut, "(*ast.DataMessage)")},
+		Rules:       []Rule{rFrame, only(rCkRep, "DataMessage"), rCopy, only(rDomMsg, "SetSessionIDAndSystemBytes"), only(rImmut, "(*ast.DataMessage)")},
 		Explanation: "The frame condition is decided for all three producers and all 8 fields (taken from the struct type, so a new field becomes an obligation): each producer is evaluated symbolically and every field of the freshly allocated result outside the producer's modifies-set must be the receiver's field of the same name; inside the set the value must be the argument (session id), 0/1 for false/true (wait bit), a fresh 4-byte buffer filled from the argument (system bytes) or receiver.dataItem.FillVariables(values); SetWaitBit returns the receiver itself exactly when its wait bit is not optional (R11); results are validated (R13); the system-bytes copy cannot overrun its 4-byte buffer (R18) and never keeps the caller's slice (R12-I3).",
 		NotDecided:  "nothing structural is left for the stated producers.",
 		Assumptions: stdAssumptions})
 	register(&Property{ID: "C19", Title: "Messages in one SML text are parsed independently",
-		Rules: []Rule{rMsgScope, only(rImmut, "I5:global", "I5:go", "I5:mutable-struct:sml")},
+		Rules:       []Rule{rMsgScope, only(rImmut, "I5:global", "I5:go", "I5:mutable-struct:sml")},
 		Explanation: "Every field of the parser that is written while a message is parsed is either re-initialised at the top of parseMessage before anything else runs, or only ever extended by append / advanced by reslicing (result lists and the token queue); a new field that is neither is a violation; both lexer states return to the header state right after emitting the terminator; parseMessage is called in a loop that ends at the EOF token (R20); there is no package-level state to carry anything across (I5).",
 		NotDecided:  "that the token stream of a concatenation is the concatenation of the token streams (lexer position arithmetic) is not decided.",
 		Assumptions: stdAssumptions})
